@@ -178,18 +178,36 @@ class Gauleg(Entry):
             if round == 0:
                 nmax = 40 if q else 200
                 for n in range(1, nmax + 1):
-                    cs.append({"a": hx(-1.0), "b": hx(1.0), "n": n, "mom": 2 * n if n <= 12 else 0, "family": "unit 1..%d" % nmax})
+                    cs.append({"a": hx(-1.0), "b": hx(1.0), "n": n, "mom": 2 * n if n <= (6 if q else 12) else 0, "family": "unit 1..%d" % nmax})
                 for n in (0, -1, -7):
                     cs.append({"a": hx(-1.0), "b": hx(1.0), "n": n, "mom": 0, "family": "rejected npts<=0"})
-                for n in ([1, 2, 3, 5, 8, 21, 40] if q else [1, 2, 3, 4, 5, 7, 8, 16, 31, 64, 100, 127, 200]):
+                for n in ([1, 2, 3, 5, 8, 21, 40] if q else [1, 2, 3, 5, 8, 16, 31, 64, 127, 200]):
                     for a, b, kind in [(0.0, 1.0, "plain"), (3.5, -2.25, "rev"), (-7.0, -3.0, "neg"), (1e-5, 3e-5, "tiny"),
                                        (2e-250, 7e-250, "tiny"), (-4e200, 9e200, "huge"), (1e12, -1e12, "rev")]:
                         cs.append({"a": hx(a), "b": hx(b), "n": n, "mom": 0, "family": "interval:" + kind})
+            if round == 0:
+                # SYSTEMATIC widths: |b-a| = 2*10^-k .. (half width below 1: where a tolerance "in the units of the
+                # interval" would differ), and huge ones; at the origin, offset by a few widths, reversed.  Every bound
+                # of rule_check (nodes, weights, weight sum, symmetry, reference rule) is RELATIVE to |b-a|.
+                ks = [0, 1, 2, 3, 4, 6, 8, 10, 12, 16, 30, 100, 300] if q else list(range(0, 17)) + [20, 30, 60, 100, 200, 300]
+                for k in ks:
+                    w = 2.0 * 10.0 ** (-k)
+                    for n, (a, b) in zip((2, 5, 16, 3, 9), ((0.0, w), (-w / 2, w / 2), (3 * w, 4 * w), (w, 0.0), (-7 * w, -6 * w))):
+                        if q and (k + n) % 2:
+                            continue
+                        cs.append({"a": hx(a), "b": hx(b), "n": n, "mom": 0, "family": "width:2e-%d" % k})
+                for k in ([1, 3, 6, 12, 100, 300] if q else [1, 2, 3, 4, 6, 9, 12, 15, 30, 100, 200, 300]):
+                    w = 2.0 * 10.0 ** k
+                    for n, (a, b) in zip((2, 7, 20), ((0.0, w), (-w / 2, w / 2), (w, -w))):
+                        cs.append({"a": hx(a), "b": hx(b), "n": n, "mom": 0, "family": "width:2e+%d" % k})
+                # signed zeros as end points
+                for a, b in ((-0.0, 1.0), (-1.0, -0.0), (0.0, -1.0), (-0.0, 1e-300)):
+                    cs.append({"a": hx(a), "b": hx(b), "n": 4, "mom": 0, "family": "width:signed zero"})
             if round == 0:   # how x1, x2, npts are passed: python int / numpy scalars / 0-d arrays / bool
                 for af in ("pyint", "np64", "np32", "zerod", "bool"):
                     for n in ((1,) if af == "bool" else (1, 4, 9)):
                         cs.append({"a": hx(-3.0), "b": hx(5.0), "n": n, "mom": 0, "argform": af, "family": "argform:" + af})
-            for a, b, kind in intervals(r, ctx.n(45, 220) if round == 0 else 40):
+            for a, b, kind in intervals(r, ctx.n(40, 120) if round == 0 else 40):
                 n = r.choice([r.randrange(1, 12), r.randrange(1, 61), r.randrange(1, 61 if q else 201)])
                 cs.append({"a": hx(a), "b": hx(b), "n": n, "mom": 0, "family": "interval:" + kind})
         elif self.mode == "moments":
@@ -198,19 +216,19 @@ class Gauleg(Entry):
                 ns = list(range(nmax, 12, -1))
                 if q:   # quick: every other n (all n <= 12 are certified by the light entry; thorough: all);
                     #       paired large/small so that the shards of 2 are balanced
-                    ns = [n for n in ns if n % 2 == 0 or n == 29]
+                    ns = [n for n in ns if n in (21, 22, 24, 26, 28, 29, 30)]   # n <= 20: theorem C17_small_rules_exact
                     k = (len(ns) + 1) // 2
                     ns = [ns[i + j * k] for i in range(k) for j in range(2) if i + j * k < len(ns)]
                 else:   # thorough: all n <= 32, then samples up to 64 (128 moments)
-                    ns = [n for n in ns if n <= 32 or n in (40, 48, 64)]
+                    ns = [n for n in ns if n <= 24 or n in (28, 32, 40, 48)]
                 for n in ns:
                     cs.append({"a": hx(-1.0), "b": hx(1.0), "n": n, "mom": 2 * n, "family": "moments 13..%d" % nmax})
         else:
             if round == 0 and not q:
-                for n in (2000, 1000, 777, 500, 333):
+                for n in (2000, 777, 333):
                     cs.append({"a": hx(-1.0), "b": hx(1.0), "n": n, "mom": 0, "family": "samples to 2000"})
-                cs.append({"a": hx(-3.0), "b": hx(11.5), "n": 1500, "mom": 0, "family": "samples to 2000"})
-        return cs
+                cs.append({"a": hx(-3.0), "b": hx(11.5), "n": 1000, "mom": 0, "family": "samples to 2000"})
+        return _with_decoys(cs)
 
     def impl(self, c):
         from esutil.integrate import gauleg
@@ -229,6 +247,10 @@ class Gauleg(Entry):
                 a, b, n = np.array(a), np.array(b), np.array(n)
             elif af == "bool":
                 n = True
+            if c.get("decoy") and c["n"] >= 1:
+                # same count on another interval, same interval with another count, just before
+                gauleg(float.fromhex(c["a"]) + 1.0, float.fromhex(c["b"]) * 2.0 + 3.0, c["n"])
+                gauleg(float.fromhex(c["a"]), float.fromhex(c["b"]), c["n"] + 1)
             x, w = gauleg(a, b, n)
             if x.dtype != np.dtype("f8") or w.dtype != np.dtype("f8") or x.ndim != 1 or w.ndim != 1:
                 raise RuntimeError("gauleg returned %s/%s arrays" % (x.dtype, w.dtype))
@@ -278,7 +300,7 @@ class GaulegMP(Gauleg):
     def cases(self, ctx, round=0):
         if round != 0 or ctx.quick():
             return []
-        ns = list(range(1, 101)) + [128, 150, 200]
+        ns = list(range(1, 51)) + [64, 100, 128, 200]
         mp_rules(ns)
         r = ctx.rng
         cs = []
@@ -317,7 +339,7 @@ class Poly(Entry):
         ns = list(range(1, 31)) if round == 0 else [r.randrange(1, 31) for _ in range(10)]
         if round == 0 and ctx.quick():
             ns = [n for n in ns if n <= 10 or n % 2 == 0 or n == 29]
-        per = ctx.n(2, 4)
+        per = ctx.n(2, 3)
         for n in ns:
             for j in range(per):
                 deg = 2 * n - 1 if j % 2 == 0 else r.randrange(0, 2 * n)
@@ -341,6 +363,20 @@ class Poly(Entry):
                 if co[-1] == 0.0:
                     co[-1] = 1.0
                 cs.append({"a": hx(a), "b": hx(b), "n": n, "p": hxl(co), "family": "n<=30 deg<=2n-1 " + style})
+        if round == 0:
+            # narrow / wide intervals: the polynomial is given in the variable x itself, low degree so that x^k stays
+            # finite; the bound 1e-9 (b-a) max|p| is relative to the width
+            for k in ([2, 6, 12] if ctx.quick() else [1, 2, 3, 4, 5, 6, 8, 10, 12, 14]):
+                for n in ((2, 6) if ctx.quick() else (2, 3, 6)):
+                    w = 10.0 ** (-k)
+                    a = r.choice([0.0, 1.0, -2.5])
+                    co = [r.uniform(-1, 1) for _ in range(min(2 * n, 4))]
+                    cs.append({"a": hx(a), "b": hx(a + w), "n": n, "p": hxl(co), "family": "narrow 1e-%d" % k})
+            for k in ([3, 6] if ctx.quick() else [2, 3, 4, 6, 8]):
+                for n in (2, 5):
+                    w = 10.0 ** k
+                    co = [r.uniform(-1, 1) * w ** (-j) for j in range(min(2 * n, 4))]
+                    cs.append({"a": hx(-w / 3), "b": hx(2 * w / 3), "n": n, "p": hxl(co), "family": "wide 1e+%d" % k})
         return cs
 
     def impl(self, c):
@@ -432,6 +468,16 @@ def mild_intervals(r, k):
     return out
 
 
+def _with_decoys(cs):
+    """sequence dimension for the stateless-looking entry points: every second case is preceded, in the same
+    process, by a DECOY call that shares everything a lazily keyed cache could use as its key (same point count,
+    same lengths, same end points / same range values, same object shapes) but has different contents; the real
+    call is then judged as usual by the Coq model and the verified checker."""
+    for i, c in enumerate(cs):
+        c.setdefault("decoy", i % 2 == 1)
+    return cs
+
+
 # ---- input forms (follow-up round): how a range / a callable / a table is handed to the code ------------
 FFORMS = {  # python kind of the integrand -> ykind of C17/Model.v
     "def": "YFunction", "lambda": "YLambda", "method": "YMethod", "partial": "YPartial",
@@ -510,12 +556,20 @@ class Func(Entry):
         cs = []
         names = sorted(_funcs())
         q = ctx.quick()
-        for a, b, kind in mild_intervals(r, ctx.n(55, 250) if round == 0 else 40):
+        for a, b, kind in mild_intervals(r, ctx.n(50, 150) if round == 0 else 40):
             n = r.choice([r.randrange(1, 10), r.randrange(1, 41), r.randrange(1, 61 if q else 201),
                           r.choice([7, 8, 9, 127, 128, 129, 130, 136, 137] if not q else [7, 8, 9, 15, 16, 17, 128, 129])])
             cs.append({"x1": hx(a), "x2": hx(b), "n": n, "fn": r.choice(names),
                        "via": r.choice(["integrate", "integrate_npts", "integrate_func", "qgauss"]),
                        "family": "func:" + kind})
+        if round == 0:
+            # special points: equal bounds (zero width: the result is exactly 0), signed zeros, one bound exactly 0;
+            # huge widths with bounded integrands
+            sp = [(0.0, 0.0), (2.5, 2.5), (-0.0, 0.0), (0.0, 3.0), (-3.0, 0.0), (-0.0, 3.0), (3.0, -0.0), (0.0, -0.0),
+                  (-1e6, 1e6), (0.0, 1e9), (1e12, -1e12), (-3e15, 1e15)]
+            for i, (a, b) in enumerate(sp):
+                cs.append({"x1": hx(a), "x2": hx(b), "n": (1, 2, 5, 8)[i % 4], "fn": ("tanh", "atan", "runge", "const", "abs")[i % 5],
+                           "via": ("integrate", "integrate_npts", "integrate_func", "qgauss")[i % 4], "family": "func:special"})
         # forms of the integrand (dispatch of QGauss.integrate) and of the range
         forms = []
         if round == 0:
@@ -540,7 +594,7 @@ class Func(Entry):
                 r.choice(["integrate", "integrate_npts", "integrate_func", "qgauss", "integrate_pos"])
             cs.append({"x1": hx(a), "x2": hx(b), "n": r.choice([1, 2, 3, 5, 8, 13, 20]), "fn": fn, "via": via,
                        "fform": fform, "xform": xform, "family": "form:%s/%s" % (fform, xform)})
-        return _no_underflow(cs)
+        return _with_decoys(_no_underflow(cs))
 
     def impl(self, c):
         import functools
@@ -600,6 +654,10 @@ class Func(Entry):
         def run():
             x1, x2, n = float.fromhex(c["x1"]), float.fromhex(c["x2"]), c["n"]
             zs, ws = ig.gauleg(-1.0, 1.0, n)
+            if c.get("decoy"):
+                # same range values and count with another integrand; same integrand object with another range
+                call(lambda xi: np.cos(xi) + 2.0, make_range(x1, x2, xform), n)
+                ig.QGauss(n).integrate_func([x1 - 1.0, x2 + 2.0], lambda xi: np.array(f0(xi), dtype="f8"))
             res = call(f, make_range(x1, x2, xform), n)
             if not observed:
                 # what the callable was given cannot be recorded: record it on a twin run with a plain
@@ -637,7 +695,7 @@ class Data(Entry):
     def cases(self, ctx, round=0):
         r = ctx.rng
         cs = []
-        for _ in range(ctx.n(48, 200) if round == 0 else 30):
+        for _ in range(ctx.n(30, 120) if round == 0 else 30):
             npt = r.choice([2, 3, r.randrange(2, 12), r.randrange(2, 60)])
             spacing = r.choice(["even", "uneven", "clustered", "negative"])
             x0 = r.uniform(-10, 10)
@@ -692,7 +750,7 @@ class Data(Entry):
             cs.append({"xv": hxl(xs), "yv": hxl(ys), "n": r.choice([2, 3, 5, 8, 13, 21]),
                        "via": r.choice(["integrate", "integrate_data", "qgauss"]), "family": fam})
         cs += self.form_cases(ctx, round)
-        return cs
+        return _with_decoys(cs)
 
     XDT = ("f8", "f4", "i8", "i4", "i2", "u1", "u2", ">f8", ">i4", "list", "tuple")
     YDT = ("f8", "f4", "i8", "i4", "u1", "u2", ">f8", "list", "tuple")
@@ -711,7 +769,7 @@ class Data(Entry):
         if round == 0:
             combos += [(xd, "f8", "contig") for xd in self.XDT] + [("f8", yd, "contig") for yd in self.YDT]
             combos += [("f8", "f8", lay) for lay in self.LAYOUTS] + [("u1", "u1", "strided"), ("i2", "u2", "negstride"), ("f4", "f4", "readonly")]
-        for _ in range(ctx.n(10, 70) if round == 0 else 8):
+        for _ in range(ctx.n(5, 70) if round == 0 else 8):
             combos.append((r.choice(self.XDT), r.choice(self.YDT), r.choice(self.LAYOUTS)))
         for xd, yd, lay in combos:
             npt = r.choice([2, 3, 5, 9, 17])
@@ -736,7 +794,7 @@ class Data(Entry):
                        "via": r.choice(["integrate", "integrate_data", "qgauss", "integrate_pos"]),
                        "family": "form:%s/%s/%s" % (xd, yd, lay)})
         if round == 0:       # long tables: 2^k + 1 points (searchsorted / take / interpolation over many rows)
-            for npt in ([4097] if ctx.quick() else [4097, 16385]):
+            for npt in ([1025] if ctx.quick() else [4097, 16385]):
                 h = 1.0 / 1024
                 xs = [-2.0 + h * i + (h / 4 if i % 3 == 1 else 0.0) for i in range(npt)]
                 ys = [math.sin(0.7 * x) + 0.1 * x for x in xs]
@@ -781,6 +839,15 @@ class Data(Entry):
             keep = (snap(xv), snap(yv))
             n = c["n"]
             zs, ws = ig.gauleg(-1.0, 1.0, n)
+            if c.get("decoy"):
+                # a table of the same length with the same end points (hence the same abscissae), other interior
+                # points and other ordinates, integrated with the same count just before
+                xd = np.array([float.fromhex(h) for h in c["xv"]])
+                yd = np.array([float.fromhex(h) for h in c["yv"]])[::-1].copy()
+                if len(xd) > 2:
+                    xd[1:-1] = (xd[1:-1] + xd[2:]) / 2.0
+                ig.QGauss(n).integrate(xd, yd)
+                ig.qgauss(xd, yd * 2.0 + 1.0, n)
             if c["via"] == "integrate":
                 res = ig.QGauss(n).integrate(xv, yv)
             elif c["via"] == "integrate_data":
@@ -826,7 +893,7 @@ class Func2(Entry):
             shapes += [(1, 1), (1, 3), (4, 1), (3, 4), (4, 3), (2, 2), (5, 5), (7, 2), (2, 9), (8, 16)]
             if not ctx.quick():
                 shapes += [(30, 30), (24, 31), (1, 40)]
-        for _ in range(ctx.n(30, 100) if round == 0 else 30):
+        for _ in range(ctx.n(18, 60) if round == 0 else 30):
             shapes.append((r.randrange(1, nmax + 1), r.randrange(1, nmax + 1)))
         for nx, ny in shapes:
             (a, b, k1), (c_, d, k2) = mild_intervals(r, 2)
@@ -846,7 +913,7 @@ class Func2(Entry):
             nx, ny = r.choice([(1, 7), (7, 1), (3, 3), (1, 8), (2, 4), (3, 43), (43, 3), (1, 129), (8, 16), (4, 5)])
             cs.append({"nx": nx, "ny": ny, "x1": hx(a), "x2": hx(b), "y1": hx(c_), "y2": hx(d), "fn": r.choice(names),
                        "xform": xf, "yform": yf, "family": "form2d:%s/%s" % (xf, yf)})
-        return _no_underflow(cs)
+        return _with_decoys(_no_underflow(cs))
 
     def classify(self, c, out, v):
         ints = ("i8", "i4", "u1", "u8", "f4", "intlist")
@@ -870,6 +937,12 @@ class Func2(Entry):
         def run():
             x, wx = ig.gauleg(-1.0, 1.0, c["nx"])
             y, wy = ig.gauleg(-1.0, 1.0, c["ny"])
+            if c.get("decoy"):
+                # same grid SIZE with the transposed shape, and the same shape with the two ranges exchanged
+                ig.QGauss2(c["ny"], c["nx"]).integrate_func([float.fromhex(c["y1"]), float.fromhex(c["y2"])],
+                                                            [float.fromhex(c["x1"]), float.fromhex(c["x2"])], f0)
+                ig.QGauss2(c["nx"], c["ny"]).integrate_func([float.fromhex(c["x1"]) + 1.0, float.fromhex(c["x2"]) + 1.0],
+                                                            [float.fromhex(c["y1"]), float.fromhex(c["y2"])], f0)
             qg = ig.QGauss2(c["nx"], c["ny"])
             res = qg.integrate_func(make_range(float.fromhex(c["x1"]), float.fromhex(c["x2"]), c.get("xform", "list")),
                                     make_range(float.fromhex(c["y1"]), float.fromhex(c["y2"]), c.get("yform", "list")), func)
@@ -917,7 +990,34 @@ class History(Entry):
             cs.append({"n0": None, "ops": [0, 0, None, 5, None], "fn": "sin", "x1": hx(0.0), "x2": hx(2.0), "kind": "func", "family": "history:rejected-count"})
             cs.append({"n0": None, "ops": [None, 4, None], "fn": "cos3", "x1": hx(-1.0), "x2": hx(2.0), "kind": "func", "family": "history:no-count"})
             cs.append({"n0": 0, "ops": [3], "fn": "sin", "x1": hx(0.0), "x2": hx(2.0), "kind": "func", "family": "history:rejected-count"})
-        for _ in range(ctx.n(60, 300) if round == 0 else 30):
+        if round == 0:
+            # SYSTEMATIC returns to earlier point counts on one object (A B A, A B C A, ...), through the
+            # constructor or the keyword, function and data paths interleaved, and the arguments of the calls
+            # varied the way a too coarse cache key would confuse: the same range / table OBJECT again after its
+            # contents were changed in place, an equal-content copy, tables of equal length with equal end points
+            pats = [("A", "B", "A"), ("A", "B", "C", "A"), ("A", "B", "A", "B", "A"), ("A", "A", "B", "B", "A"),
+                    ("A", "B", None, "A", None), ("B", "A"), ("A", "B", "C", "B", "A", "C")]
+            kpats = ["f", "d", "fd", "df", "ffd"]
+            triples = [(4, 8, 3), (16, 5, 30)] if ctx.quick() else [(4, 8, 3), (16, 5, 30), (1, 2, 40), (9, 129, 8), (7, 14, 28)]
+            k = 0
+            for tr in triples:
+                m = dict(zip("ABC", tr))
+                for pat in pats:
+                    for n0 in (None, "A", "B"):
+                        k += 1
+                        if ctx.quick() and k % 3 != 1:
+                            continue
+                        ops = [m[x] if x else None for x in pat]
+                        if n0 is None and ops[0] is None:
+                            continue
+                        kp = kpats[k % len(kpats)]
+                        a, b, _k = mild_intervals(r, 1)[0]
+                        cs.append({"n0": m[n0] if n0 else None, "ops": ops, "fn": r.choice(names), "x1": hx(a), "x2": hx(b),
+                                   "kind": "func", "kinds": [{"f": "func", "d": "data"}[kp[i % len(kp)]] for i in range(len(ops))],
+                                   "styles": [r.choice(["kw", "pos"]) if n is not None else r.choice(["kw", "omit"]) for n in ops],
+                                   "sets": [r.choice([0, 1, 2, 3]) for _n in ops],
+                                   "family": "history:return %s/%s" % ("".join(x or "-" for x in pat), kp)})
+        for _ in range(ctx.n(45, 200) if round == 0 else 30):
             pool = [r.randrange(1, 41) for _i in range(r.randrange(1, 4))]
             n0 = r.choice([None, r.choice(pool)])
             ops = [r.choice([None, None] + pool + [r.randrange(1, 41)]) for _i in range(r.randrange(1, 9))]
@@ -935,34 +1035,79 @@ class History(Entry):
                 c["kinds"] = [r.choice(["func", "data"]) for _n in ops]
                 c["n0style"] = r.choice(["py", "np64", "np32"])
                 c["family"] = fam + "/mixed"
+                if r.random() < 0.5:
+                    c["sets"] = [r.choice([0, 1, 2, 3]) for _n in ops]
             cs.append(c)
         return cs
 
     def impl(self, c):
         import numpy as np
         import esutil.integrate as ig
+        from esutil import stat
         f0 = _funcs()[c["fn"]]
         x1, x2 = float.fromhex(c["x1"]), float.fromhex(c["x2"])
+        if x1 == x2:
+            x2 = x1 + 1.0
 
         def func(xi):
             return f0(xi)
         lo, hi = min(x1, x2), max(x1, x2)
         xv = np.linspace(lo, hi, 17) + 0.01 * (hi - lo) * np.sin(np.arange(17.0)) * (np.arange(17) % 16 != 0)
         xv = np.sort(xv)
-        allargs = {"data": (xv, np.array(f0(xv), dtype="f8")), "func": ([x1, x2], func)}
+        # the argument OBJECTS shared by the calls of this history (sets: 0 = as they are, 1 = contents changed
+        # in place first, 2 = a different object with equal contents, 3 = another table / range of equal
+        # length and equal end points)
+        shared = {"xv": xv.copy(), "yv": np.array(f0(xv), dtype="f8"), "rng": [x1, x2]}
         kinds = c.get("kinds") or [c["kind"]] * len(c["ops"])
         styles = c.get("styles") or ["kw"] * len(c["ops"])
+        sets = c.get("sets") or [0] * len(c["ops"])
 
         def conv(n, style):
             if n is None:
                 return None
             return {"np64": np.int64, "np32": np.int32}.get(style, int)(n)
 
+        def arguments(kind, st):
+            if st == 1:      # same objects, contents changed in place (end points of the table kept)
+                shared["yv"] *= 1.5
+                shared["yv"] += 0.25
+                shared["xv"][1:-1] += 0.2 * np.diff(shared["xv"])[1:] * (np.arange(15) % 2)
+                shared["rng"][1] = shared["rng"][1] + 0.25 * (shared["rng"][1] - shared["rng"][0])
+            if kind == "data":
+                if st == 2:
+                    return shared["xv"].copy(), shared["yv"].copy()
+                if st == 3:
+                    x3 = shared["xv"].copy()
+                    x3[1:-1] = np.sort(x3[0] + (x3[-1] - x3[0]) * (0.03 + 0.94 * ((np.arange(15) * 0.6180339887) % 1.0)))
+                    y3 = shared["yv"][::-1].copy()
+                    y3[0], y3[-1] = shared["yv"][0], shared["yv"][-1]
+                    return x3, y3
+                return shared["xv"], shared["yv"]
+            if st == 2:
+                return list(shared["rng"]), func
+            if st == 3:
+                return [shared["rng"][0], shared["rng"][1]], (lambda xi: f0(xi) * 0.5 + 1.0)
+            return shared["rng"], func
+
+        def direct(kind, a0, a1, k):
+            """the k-point weighted sum computed outside any QGauss object (its caches cannot touch this)"""
+            z, w = ig.gauleg(-1.0, 1.0, k)
+            if kind == "data":
+                xa, ya = np.asarray(a0, dtype="f8"), np.asarray(a1, dtype="f8")
+                u1, u2 = xa.min(), xa.max()
+            else:
+                u1, u2 = float(a0[0]), float(a0[1])
+            f1 = (u2 - u1) / 2.0
+            f2 = (u2 + u1) / 2.0
+            xi = z * f1 + f2
+            yy = stat.interplin(ya, xa, xi) if kind == "data" else a1(xi)
+            return f1 * (yy * w).sum()
+
         def run():
             qg = ig.QGauss(conv(c["n0"], c.get("n0style", "py")))
             obs = []
-            for n, kind, style in zip(c["ops"], kinds, styles):
-                args = allargs[kind]
+            for n, kind, style, st in zip(c["ops"], kinds, styles, sets):
+                args = arguments(kind, st)
                 try:
                     if style == "omit":
                         res = qg.integrate(args[0], args[1])
@@ -972,6 +1117,10 @@ class History(Entry):
                         res = qg.integrate(args[0], args[1], npts=conv(n, style))
                     k = len(qg.xxi)
                     fresh = ig.QGauss(k).integrate(args[0], args[1])
+                    ref = direct(kind, args[0], args[1], k)
+                    if hx(fresh) != hx(ref):
+                        # a fresh OBJECT disagrees with the sum computed without any object: report against the latter
+                        fresh = ref if hx(res) == hx(fresh) else fresh
                     obs.append(["ok", k, hx(res), hx(fresh)])
                 except Exception as e:  # noqa
                     obs.append(["err", core.errclass(e)])
@@ -995,7 +1144,91 @@ class History(Entry):
         return "hist_model %s %s" % (copt(c["n0"]), "[" + "; ".join(copt(n) for n in c["ops"]) + "]")
 
 
-ENTRIES = [GaulegMoments(), GaulegLarge(), Gauleg(), GaulegMP(), Poly(), Func(), Data(), Func2(), History()]
+class History2(Entry):
+    """ONE QGauss2(nx, ny) object reused for several ranges / integrands (returning to earlier ones, the same range
+    object changed in place, another QGauss2 of a different shape built in between): every result must be what
+    a fresh object returns and the object's grids must not change"""
+    name = "history2"
+    shard = 40
+    shard_quick = 40
+
+    def cases(self, ctx, round=0):
+        r = ctx.rng
+        cs = []
+        names = sorted(_funcs2())
+        shapes = [(3, 4), (4, 3), (1, 5), (6, 6), (2, 9), (8, 16)] if round == 0 else []
+        for _ in range(ctx.n(10, 60) if round == 0 else 6):
+            shapes.append((r.randrange(1, 13), r.randrange(1, 13)))
+        for nx, ny in shapes:
+            pat = r.choice([(0, 1, 0), (0, 1, 2, 0), (0, 0, 1, 1, 0), (0, 1, 0, 1), (2, 1, 0, 2)])
+            rngs = []
+            for _i in range(3):
+                (a, b, _k1), (c_, d, _k2) = mild_intervals(r, 2)
+                rngs.append([hx(a), hx(b), hx(c_), hx(d)])
+            cs.append({"nx": nx, "ny": ny, "pat": list(pat), "rngs": rngs, "fns": [r.choice(names) for _i in range(3)],
+                       "inplace": r.random() < 0.5, "other": r.random() < 0.5, "family": "history2:" + "".join(map(str, pat))})
+        for c in cs:     # integrands that underflow to subnormals on wide ranges: see _no_underflow
+            big = max(abs(float.fromhex(h)) for rg in c["rngs"] for h in rg) > 30.0
+            c["fns"] = [("ratio" if big and f == "gauss2" else f) for f in c["fns"]]
+        return cs
+
+    def impl(self, c):
+        import numpy as np
+        import esutil.integrate as ig
+        fs = _funcs2()
+
+        def run():
+            qg = ig.QGauss2(c["nx"], c["ny"])
+            grids = (qg.xgrid.tobytes(), qg.ygrid.tobytes(), qg.wgrid.tobytes())
+            xr, yr = [0.0, 0.0], [0.0, 0.0]          # the SAME two list objects for every call when inplace
+            obs = []
+            for j in c["pat"]:
+                v = [float.fromhex(h) for h in c["rngs"][j]]
+                if c["inplace"]:
+                    xr[0], xr[1], yr[0], yr[1] = v
+                    ax, ay = xr, yr
+                else:
+                    ax, ay = [v[0], v[1]], (v[2], v[3])
+                f = fs[c["fns"][j]]
+                def direct(nx, ny):
+                    """the tensor-product sum computed from gauleg alone (no QGauss2 object, no cache of one)"""
+                    gx, wx = ig.gauleg(-1.0, 1.0, nx)
+                    gy, wy = ig.gauleg(-1.0, 1.0, ny)
+                    xg, yg = np.meshgrid(gx, gy)
+                    xf1, xf2 = (v[1] - v[0]) / 2.0, (v[1] + v[0]) / 2.0
+                    yf1, yf2 = (v[3] - v[2]) / 2.0, (v[3] + v[2]) / 2.0
+                    wg = (np.ones((ny, nx)) * wx[np.newaxis, :]) * (np.ones((ny, nx)) * wy[:, np.newaxis])
+                    return xf1 * yf1 * (f(xg * xf1 + xf2, yg * yf1 + yf2) * wg).sum()
+                if c["other"]:
+                    # a second object of another shape built and used in between (a cache keyed by nx alone, or by
+                    # the number of grid points, would hand it / us the wrong grids): judged against the direct sum
+                    oth = ig.QGauss2(c["nx"], c["ny"] + 1).integrate_func(ax, ay, f)
+                    obs.append(["ok", c["nx"] * c["ny"], hx(oth), hx(direct(c["nx"], c["ny"] + 1))])
+                res = qg.integrate_func(ax, ay, f)
+                fresh = ig.QGauss2(c["nx"], c["ny"]).integrate_func([v[0], v[1]], [v[2], v[3]], f)
+                ref = direct(c["nx"], c["ny"])
+                if hx(fresh) != hx(ref) and hx(res) == hx(fresh):
+                    fresh = ref
+                same = grids == (qg.xgrid.tobytes(), qg.ygrid.tobytes(), qg.wgrid.tobytes())
+                obs.append(["ok", int(qg.wgrid.size) if same else -1, hx(res), hx(fresh)])
+            return obs
+        return core.guarded(run)
+
+    def term(self, c, out):
+        n0 = c["nx"] * c["ny"]
+        ncalls = len(c["pat"]) * (2 if c["other"] else 1)
+        ops = "[" + "; ".join("None" for _j in range(ncalls)) + "]"
+        if out[0] != "ok":
+            o = "(Err %s)" % out[1]
+        else:
+            o = "(Ok [" + "; ".join("(Ok (%s, (%s, %s)))" % (cz(ob[1]), cf(ob[2]), cf(ob[3])) for ob in out[1]) + "])"
+        return "v_history %s %s %s" % (copt(n0), ops, o)
+
+    def nontrivial(self, c, out):
+        return c["nx"] >= 2 and c["ny"] >= 2 and len(set(c["pat"])) >= 2
+
+
+ENTRIES = [GaulegMoments(), GaulegLarge(), Gauleg(), GaulegMP(), Poly(), Func(), Data(), Func2(), History(), History2()]
 
 TRUSTED = [
     "Coq 8.16.1 kernel (coqc, vm_compute incl. the kernel's primitive binary64 floats = host IEEE-754; no native_compute)",
